@@ -170,13 +170,14 @@ type sysRun struct {
 	became     string
 	becameLeft []string // child processes alive and never signalled at the instant fzf replaced itself
 
-	onSettle   func(r *sysRun, busy bool, final bool)
-	execFailed bool // become could not replace the process
-	onExit     func(r *sysRun)
-	behave     func(r *sysRun, p *simos.Proc) (simos.Script, bool)
-	auditAt    []string
-	tmpDir     string
-	oldTmp     string
+	onSettle      func(r *sysRun, busy bool, final bool)
+	execFailed    bool // become could not replace the process
+	termDelivered bool // SIGTERM / SIGHUP reached fzf's handler
+	onExit        func(r *sysRun)
+	behave        func(r *sysRun, p *simos.Proc) (simos.Script, bool)
+	auditAt       []string
+	tmpDir        string
+	oldTmp        string
 
 	tolerateBadOpts bool
 	sigKilled       bool
@@ -627,6 +628,9 @@ func (r *sysRun) user() {
 			}
 			r.c.count("fault.signal_"+ev.Sig, 1)
 			r.sim.Logf("signal %s", ev.Sig)
+			if delivered && ev.Sig != "INT" {
+				r.termDelivered = true // (a command that an action under way starts afterwards is stopped at once)
+			}
 			if delivered && ev.Sig != "INT" && r.sigTermAt == 0 {
 				// SIGTERM / SIGHUP are for fzf itself whatever it is doing: also while a command it has
 				// started in the foreground is still running
@@ -701,7 +705,7 @@ func (r *sysRun) exitAudit() []string {
 	var out []string
 	out = append(out, r.tty.Audit()...)
 	for _, p := range r.os.AliveUnkilled() {
-		if fg := p.Parent != nil && (strings.HasPrefix(p.Parent.Command, "EX") || strings.HasPrefix(p.Parent.Command, "TQ") || strings.HasPrefix(p.Parent.Command, "TR")); r.sigTermAt > 0 && fg && p.Parent.Killed {
+		if fg := p.Parent != nil && (strings.HasPrefix(p.Parent.Command, "EX") || strings.HasPrefix(p.Parent.Command, "TQ") || strings.HasPrefix(p.Parent.Command, "TR")); (r.sigTermAt > 0 || r.termDelivered) && fg && p.Parent.Killed {
 			// its own class: fzf did stop the command it had started (the shell) - the one the signal found
 			// running, or one that the rest of the key's action list started afterwards -, what the shell had
 			// started lives on
